@@ -119,6 +119,10 @@ class ExprGen:
         # method-built sub-objects of operations already sent, kept by the caller and put into a later, freshly built tree
         self.alias_seen: Dict[Tuple[str, str], set] = {}
         self.nid = 0
+        self.ext_id = 0
+        self.retired: set = set()
+        self.no_reuse = False
+        self.deep_ext = False
         self.sent_nodes: List[dict] = []
         self.reused_in_op: set = set()
 
@@ -141,6 +145,9 @@ class ExprGen:
                 required = g["nn"](f.type) and f.default_value is Undefined
                 if required or (depth < 2 and ch.chance("v.optf", 1, 3)):
                     if depth >= 3 and not required:
+                        continue
+                    if not g["nn"](f.type) and ch.chance("v.explicit_null", 1, 4):
+                        fields[fn] = ("none",)          # set to null on purpose: the server must see null, not "absent"
                         continue
                     fields[fn] = self.value_for(f.type, depth + 1)
             return ("input", name, fields)
@@ -238,6 +245,47 @@ class ExprGen:
                 self.alias_seen.setdefault((parent_type.name, fname), set()).add(e["alias"])
         return e
 
+    def _extend_later(self, n, depth):
+        """The caller adds one more sub-field to an object it built (and sent) earlier: x.fields(more).  x is n itself or a
+        method-built composite below it; the addition stays (fields() extends), so the remembered expression gets it too."""
+        ch = self.ch
+        xs = [x for x in ([n] + self._descendants(n)) if x["how"] == "method" and x.get("nid") is not None and x.get("ret") and x["sub"]]
+        if getattr(self, "deep_ext", False):
+            xs = [x for x in xs if x is not n] or xs
+        if not xs:
+            return
+        x = xs[ch.draw("e.extend_where", len(xs))]
+        t = self.schema.type_map.get(x["ret"])
+        if t is None or not hasattr(t, "fields"):
+            return
+        taken = {(y["alias"] or y["gql"]) for y in x["sub"]}
+        names = [fn for fn in t.fields if fn not in taken]
+        if not names:
+            return
+        # prefer a field that takes arguments (its variables must reach the operation through ancestors rendered before)
+        with_args = [fn for fn in names if t.fields[fn].args]
+        pool_ = with_args if (with_args and (getattr(self, "deep_ext", False) or ch.chance("e.extend_with_args", 2, 3))) else names
+        fn = pool_[ch.draw("e.extend_field", len(pool_))]
+        e = self.field_expr(t, fn, t.fields[fn], 1)
+        if not e or e["how"] == "uattr" or (e["alias"] and e["alias"] in taken):
+            return
+        self.ext_id += 1
+        e["ext_id"] = self.ext_id
+        if e["how"] == "method":
+            e.setdefault("made_in", t.name)
+        x["sub"].append(e)
+
+    def _descendants(self, e):
+        out = []
+        for y in e["sub"]:
+            out.append(y)
+            out += self._descendants(y)
+        for ys in e["on"].values():
+            for y in ys:
+                out.append(y)
+                out += self._descendants(y)
+        return out
+
     def _nids(self, e) -> set:
         out = {e["nid"]} if e.get("nid") is not None else set()
         if e.get("reuse_nid") is not None:
@@ -295,18 +343,34 @@ class ExprGen:
         if not leaf_only and self.sent_nodes and ch.chance("e.reuse_earlier_subobject", 1, 5):
             # (no object may end up at two positions of this operation - that would be D10: candidates whose sub-tree shares
             # an object with something already re-used here are left out)
-            cands = [n for n in self.sent_nodes if n["made_in"] == t.name and not (self._nids(n) & self.reused_in_op)
+            cands = [n for n in self.sent_nodes if n["made_in"] == t.name and not (self._nids(n) & (self.reused_in_op | self.retired))
                      and all((x["alias"] or x["gql"]) != (n["alias"] or n["gql"]) for x in out)
                      and not self._holds_uattr(n)]
-            if cands:
-                n = cands[ch.draw("e.reuse_which", len(cands))]
+            if cands and not self.no_reuse:
+                # (half of the time, when there is one: a kept tree without any argument in it that has composites below its
+                # top - the shape in which an object that remembers "nothing below me takes variables" goes stale when a
+                # deeper object is extended)
+                quiet = [n for n in cands if self._arg_free(n) and any(y["how"] == "method" and y.get("ret") and y["sub"] for y in self._descendants(n))]
+                deep_ext = bool(quiet) and ch.chance("e.prefer_quiet_tree", 1, 2)
+                pool_c = quiet if deep_ext else cands
+                n = pool_c[ch.draw("e.reuse_which", len(pool_c))]
                 import copy as _copy
                 c = _copy.deepcopy(n)
                 c["reuse_nid"] = n["nid"]
                 self.reused_in_op |= self._nids(n)
+                self.deep_ext = deep_ext
+                if deep_ext or ch.chance("e.extend_kept_object", 1, 2):
+                    # the caller adds one more sub-field to the kept object (or to one below it) before using it here.  The
+                    # object is changed for good, so it - and every tree holding it - is not used again afterwards
+                    self.no_reuse = True
+                    try:
+                        self._extend_later(c, depth)
+                    finally:
+                        self.no_reuse = False
+                    self.retired |= self._nids(n)
                 out.append(c)
         # the very same built object again, in another selection set
-        if not leaf_only and self.sharable and ch.chance("e.share_subtree", 1, 3):
+        if not leaf_only and self.sharable and not self.no_reuse and ch.chance("e.share_subtree", 1, 3):
             cands = [n for n in self.sharable if n["made_in"] == t.name and id(n) not in [id(x) for x in out]
                      and all(x["gql"] != n["gql"] or (x["alias"] or x["gql"]) != (n["alias"] or n["gql"]) for x in out)
                      and all((x["alias"] or x["gql"]) != (n["alias"] or n["gql"]) for x in out)]
@@ -410,7 +474,22 @@ def interpret(e: dict, pkg, schema, snake: bool, root_kind: Optional[str] = None
         return shared[e["sid"]]
     pool = shared.get("__pool__") if shared is not None else None
     if pool is not None and e.get("reuse_nid") is not None and e["reuse_nid"] in pool:
-        return pool[e["reuse_nid"]]              # the very object built for an earlier operation
+        # the very object built for an earlier operation; sub-fields the caller adds to it (or to objects below it) now are
+        # added once - fields() extends the object for good
+        applied = shared.setdefault("__applied_ext__", pool.setdefault("__applied_ext__", set()))
+
+        def add_pending(node):
+            for y in list(node["sub"]):
+                if y.get("ext_id") is not None and y["ext_id"] not in applied and node.get("nid") in pool:
+                    applied.add(y["ext_id"])
+                    pool[node["nid"]].fields(interpret(y, pkg, schema, snake, shared=shared))
+                elif y.get("ext_id") is None or y["ext_id"] in applied:
+                    add_pending(y)
+            for ys in node["on"].values():
+                for y in ys:
+                    add_pending(y)
+        add_pending(e)
+        return pool[e["reuse_nid"]]
     obj = _interpret(e, pkg, schema, snake, root_kind, shared)
     if shared is not None and e.get("sid") is not None:
         shared[e["sid"]] = obj
@@ -742,6 +821,10 @@ def run_case(case, ch: Choices) -> RunResult:
             prebuilt = None
             reusable = built_ops if eg.free_shared_unions else \
                 [bo for bo in built_ops if not any(e["how"] == "uattr" for e in _all_nodes(bo[0]))]
+            # (trees holding an object that was extended afterwards are not sent again: they show the extension, D-free but
+            # not what their recorded expression says)
+            reusable = [bo for bo in reusable if not (_op_nids(bo[0]) & eg.retired)]
+            resendable = [o_ for o_ in history if not (_op_nids(o_) & eg.retired)]
             if reusable and ch.chance("h.reuse_objects", 1, 5):
                 # send the very objects of an earlier operation again (a user keeps a built selection and re-sends it),
                 # with the top-level fields rotated so that they sit at other positions than before.  (Outside the
@@ -755,8 +838,8 @@ def run_case(case, ch: Choices) -> RunResult:
                 op = dict(src_op, fields=[src_op["fields"][k] for k in idxs], name=ch.pick("o.name2", ["Again", src_op["name"]]))
                 prebuilt = [objs[k] for k in idxs]
                 res.bump("history.same_objects_resent")
-            elif history and ch.chance("h.resend", 1, 6):
-                op = history[ch.draw("h.which", len(history))]       # re-send a previously built tree (rebuilt from the same data)
+            elif resendable and ch.chance("h.resend", 1, 6):
+                op = resendable[ch.draw("h.which", len(resendable))]       # re-send a previously built tree (rebuilt from the same data)
                 res.bump("history.resend")
             else:
                 op = eg.operation(ch.pick("h.kind", kinds), i)
@@ -815,6 +898,8 @@ def run_case(case, ch: Choices) -> RunResult:
             eg.remember_sent(op)
             if any(e.get("reuse_nid") is not None for e in _all_nodes(op)):
                 res.bump("probe.subobject_of_earlier_operation_reused")
+            if any(e.get("ext_id") is not None for e in _all_nodes(op)):
+                res.bump("probe.kept_object_extended_later")
             res.bump("operations")
             if any(e["args"] for e in _all_nodes(op)):
                 res.bump("probe.operation_with_arguments")
@@ -864,6 +949,15 @@ def run_case(case, ch: Choices) -> RunResult:
         for a in aliases:
             unload(a)
         genrun.rmtree(base)
+
+
+def _op_nids(op) -> set:
+    out = set()
+    for e in _all_nodes(op):
+        for k_ in ("nid", "reuse_nid"):
+            if e.get(k_) is not None:
+                out.add(e[k_])
+    return out
 
 
 def _all_nodes(op):
